@@ -2,6 +2,8 @@
    Only statements; every proof is `exact <lemma from Proofs/TruncateP.v>`. *)
 From TenpyV Require Import Base.Prelude Base.PyLib Model.Truncate Proofs.TruncateP.
 From TenpyV Require Import Gen.G_truncation Proofs.TruncateGenP.
+From TenpyV Require Import Model.TruncBook Model.TruncPriority Proofs.TruncBookP Proofs.TruncPriorityP.
+From Coq Require Import QArith.
 Open Scope Z_scope.
 
 (* never discards a value larger than one it keeps (all spectra, all options) *)
@@ -73,6 +75,182 @@ Example T15_example :
   observe [5; 1; 5; 0; 3] o = (2%nat, [5; 5], 50, 10).
 Proof. vm_compute. reflexivity. Qed.
 
+(* ---------------------------------------------------------------------------------------------
+   The documented priority in ONE statement (Model/TruncPriority.v):  A_0 = all cuts 0..n-1,
+   A_k = A_(k-1) /\ G_k if that is non-empty, else A_(k-1), for the active constraints G_k in code
+   order (chi_max, chi_min > 1, degeneracy_tol, svd_min, trunc_cut; None contributes nothing);
+   final_good is exactly A_final, and truncate keeps the values above  cut = min A_final. *)
+Theorem T15_priority_general : forall xs o, xs <> [] ->
+  let ss := map fst (sorted_pairs xs) in
+  let c := cut ss o in
+  r_kept (truncate xs o) = skipn c ss /\
+  (forall k, nth k (final_good ss o) false = A_final ss o k) /\
+  (c < length xs)%nat /\ A_final ss o c = true /\
+  (forall k, A_final ss o k = true -> (c <= k)%nat).
+Proof. exact priority_general. Qed.
+
+(* one stage: the accepted set only shrinks; it becomes A /\ G exactly when that is non-empty,
+   otherwise the constraint is ignored *)
+Theorem T15_priority_stage : forall n A G,
+  (forall c, stage n A G c = true -> A c = true) /\
+  ((exists c, (c < n)%nat /\ A c = true /\ G c = true) -> forall c, stage n A G c = (A c && G c)) /\
+  ((forall c, (c < n)%nat -> A c = true -> G c = false) -> forall c, stage n A G c = A c).
+Proof. exact stage_spec. Qed.
+
+(* the constraint sets in words (sane option values; ss ascending) *)
+Theorem T15_priority_sets_meaning :
+  (forall n m c, 1 <= m -> (c < n)%nat -> (G_chi_max n m c = true <-> Z.of_nat (n - c) <= m)) /\
+  (forall n m c, 2 <= m -> (c < n)%nat -> (G_chi_min n m c = true <-> m <= Z.of_nat (n - c))) /\
+  (forall ss m c, StronglySorted Z.le ss -> (c < length ss)%nat ->
+     (G_svd_min ss m c = true <-> forall v, In v (skipn c ss) -> m <= v)) /\
+  (forall ss t c, (c < length ss)%nat ->
+     (G_trunc_cut ss t c = true <-> t < sumZ (map sq (firstn c ss)) + sq (nthZ ss c))).
+Proof. exact (conj G_chi_max_meaning (conj G_chi_min_meaning (conj G_svd_min_meaning G_trunc_cut_meaning))). Qed.
+
+(* all five constraints active, all satisfiable in order: A_final = {3} *)
+Example T15_priority_example :
+  let o := mkOpts (Some 2) None (Some (11, 10)) (Some 1) (Some 0) in
+  let ss := map fst (sorted_pairs [5; 1; 5; 0; 3]) in
+  ss = [0; 1; 3; 5; 5] /\ map (A_final ss o) (seq 0 6) = [false; false; false; true; false; false] /\ cut ss o = 3%nat.
+Proof. vm_compute. auto. Qed.
+(* chi_max = 1 cuts through the degenerate pair 5,5 and nothing reaches svd_min = 6: both later constraints are ignored *)
+Example T15_priority_example_dropped :
+  let o := mkOpts (Some 1) None (Some (11, 10)) (Some 6) (Some 0) in
+  let ss := map fst (sorted_pairs [5; 1; 5; 0; 3]) in
+  map (A_final ss o) (seq 0 6) = [false; false; false; false; true; false] /\ length (constraints ss o) = 4%nat.
+Proof. vm_compute. auto. Qed.
+
+(* ---------------------------------------------------------------------------------------------
+   Renormalisation bookkeeping of svd_theta / eigh_rho around truncate (Model/TruncBook.v), over Q,
+   without square roots: the two roots of the code, r = np.linalg.norm(S) and nn = norm_new, are
+   universally quantified and constrained by r*r == sum S^2, nn*nn == sum S[mask]^2.
+   Tie to the code: svd_book_sq / eigh_book_z / te_* are compared with the implementation in
+   harness/c15.py (streams `book`, `err-arith`); svd_theta_book / eigh_rho_book (the versions with
+   the roots as inputs) are tied to the code by reading only, and to the integer model by the
+   theorems below (mask := r_mask (truncate xs o) of the correspondence-checked Model/Truncate.v). *)
+Open Scope Q_scope.
+
+(* any mask: S_new_i * renormalization_new = S_old_i on every kept index, |S_new| = 1,
+   eps = discarded weight / total weight, renormalization_new^2 = kept weight,
+   eps = from_norm(renormalization_new, r) *)
+Theorem T15_svd_theta_bookkeeping : forall S0 r mask nn,
+  length mask = length S0 -> ~ r == 0 -> ~ nn == 0 ->
+  r * r == sumQ (map qsq S0) ->
+  nn * nn == sumQ (map qsq (select mask (map (fun x => x / r) S0))) ->
+  let out := svd_theta_book S0 r mask nn in
+  Forall2 (fun s x => s * so_renorm out == x) (so_S out) (select mask S0) /\
+  sumQ (map qsq (so_S out)) == 1 /\
+  so_eps out == sumQ (map qsq (select (nmask mask) S0)) / sumQ (map qsq S0) /\
+  qsq (so_renorm out) == sumQ (map qsq (select mask S0)) /\
+  so_eps out == 1 - qsq (so_renorm out) / (r * r).
+Proof. exact svd_book_any. Qed.
+
+(* with the mask chosen by truncate: eps and renormalization are the r_eps / r_norm2 of Model/Truncate.v *)
+Theorem T15_svd_theta_truncate : forall xs o r nn,
+  let S0 := map inject_Z xs in
+  let mask := r_mask (truncate xs o) in
+  ~ r == 0 -> ~ nn == 0 ->
+  r * r == inject_Z (sumZ (map sq xs)) ->
+  nn * nn == sumQ (map qsq (select mask (map (fun x => x / r) S0))) ->
+  let out := svd_theta_book S0 r mask nn in
+  Forall2 (fun s x => s * so_renorm out == x) (so_S out) (select mask S0) /\
+  sumQ (map qsq (so_S out)) == 1 /\
+  so_eps out == inject_Z (r_eps (truncate xs o)) / inject_Z (sumZ (map sq xs)) /\
+  qsq (so_renorm out) == inject_Z (r_norm2 (truncate xs o)) /\
+  so_eps out == 1 - qsq (so_renorm out) / (r * r).
+Proof. exact svd_book_truncate. Qed.
+
+(* squares only, every integer spectrum, no root at all:
+   (S_new_i * renormalization_new)^2 = S_old_i^2, sum S_new^2 = 1, eps = discarded / total *)
+Theorem T15_svd_theta_bookkeeping_sq : forall xs mask, length mask = length xs ->
+  (0 < sumZ (map sq xs))%Z -> (0 < sumZ (map sq (select mask xs)))%Z ->
+  Forall2 (fun s x => s * snd (fst (svd_book_sq xs mask)) == inject_Z (sq x))
+          (fst (fst (svd_book_sq xs mask))) (select mask xs) /\
+  sumQ (fst (fst (svd_book_sq xs mask))) == 1 /\
+  snd (svd_book_sq xs mask) == inject_Z (sumZ (map sq (select (nmask mask) xs))) / inject_Z (sumZ (map sq xs)) /\
+  snd (fst (svd_book_sq xs mask)) == inject_Z (sumZ (map sq (select mask xs))).
+Proof. exact svd_book_sq_ok. Qed.
+
+(* eigh_rho: sum W_new = trace, eps = discarded / trace, W_new_i * (1 - eps) = W_old_i on every kept index *)
+Theorem T15_eigh_rho_bookkeeping : forall W0 mask nn,
+  length mask = length W0 -> ~ sumQ W0 == 0 -> ~ nn == 0 ->
+  nn * nn == sumQ (select mask (map (fun w => w / sumQ W0) W0)) ->
+  let out := eigh_rho_book W0 mask nn in
+  sumQ (eo_W out) == sumQ W0 /\
+  eo_eps out == sumQ (select (nmask mask) W0) / sumQ W0 /\
+  Forall2 (fun w w0 => w * (1 - eo_eps out) == w0) (eo_W out) (select mask W0).
+Proof. exact eigh_book_any. Qed.
+
+Theorem T15_eigh_rho_truncate : forall xs o nn,
+  let W0 := map (fun x => inject_Z (sq x)) xs in
+  let mask := r_mask (truncate xs o) in
+  (0 < sumZ (map sq xs))%Z -> ~ nn == 0 ->
+  nn * nn == sumQ (select mask (map (fun w => w / sumQ W0) W0)) ->
+  let out := eigh_rho_book W0 mask nn in
+  sumQ (eo_W out) == inject_Z (sumZ (map sq xs)) /\
+  eo_eps out == inject_Z (r_eps (truncate xs o)) / inject_Z (sumZ (map sq xs)) /\
+  Forall2 (fun w w0 => w * (1 - eo_eps out) == w0) (eo_W out) (select mask W0).
+Proof. exact eigh_book_truncate. Qed.
+
+Theorem T15_eigh_rho_bookkeeping_z : forall ws mask,
+  length mask = length ws -> (0 < sumZ ws)%Z -> (0 < sumZ (select mask ws))%Z ->
+  sumQ (fst (eigh_book_z ws mask)) == inject_Z (sumZ ws) /\
+  snd (eigh_book_z ws mask) == inject_Z (sumZ (select (nmask mask) ws)) / inject_Z (sumZ ws) /\
+  Forall2 (fun w w0 => w * (1 - snd (eigh_book_z ws mask)) == inject_Z w0) (fst (eigh_book_z ws mask)) (select mask ws).
+Proof. exact eigh_book_z_ok. Qed.
+
+(* TruncationError: err_1 + ... + err_k has eps = sum eps_i, ov = product ov_i (every list);
+   from_norm(new, old) = from_S(discarded, old) when old^2 = new^2 + discarded weight *)
+Theorem T15_err_add : forall l,
+  te_eps (te_sum l) == sumQ (map te_eps l) /\ te_ov (te_sum l) == prodQ (map te_ov l).
+Proof. exact te_sum_ok. Qed.
+
+Theorem T15_err_from_norm : forall nn no disc,
+  ~ no == 0 -> no * no == nn * nn + sumQ (map qsq disc) ->
+  te_eps (te_from_norm nn no) == te_eps (te_from_S disc (Some no)) /\
+  te_ov (te_from_norm nn no) == te_ov (te_from_S disc (Some no)).
+Proof. exact te_from_norm_from_S. Qed.
+
+Theorem T15_err_from_norm_1 : forall nn disc,
+  1 == nn * nn + sumQ (map qsq disc) ->
+  te_eps (te_from_norm nn 1) == te_eps (te_from_S disc None) /\
+  te_ov (te_from_norm nn 1) == te_ov (te_from_S disc None).
+Proof. exact te_from_norm_from_S_1. Qed.
+
+(* non-vacuity: spectrum 25, 36, 48 (norm 65), chi_max = 2 keeps 36, 48 (norm 60): r = 65, nn = 12/13 *)
+Example T15_svd_theta_example :
+  let xs := [25; 36; 48]%Z in
+  let o := mkOpts (Some 2%Z) None None None None in
+  let S0 := map inject_Z xs in
+  let mask := r_mask (truncate xs o) in
+  let out := svd_theta_book S0 65 mask (12 # 13) in
+  mask = [false; true; true] /\
+  65 * 65 == inject_Z (sumZ (map sq xs)) /\
+  (12 # 13) * (12 # 13) == sumQ (map qsq (select mask (map (fun x => x / 65) S0))) /\
+  map Qred (so_S out) = [3 # 5; 4 # 5] /\ Qred (so_renorm out) = 60 /\ Qred (so_eps out) = 25 # 169.
+Proof. vm_compute. repeat split; reflexivity. Qed.
+
+(* eigenvalues 625, 1296, 2304 (trace 4225): W_new sums to the trace; dividing by new_norm instead of
+   new_norm**2 (a slip seeded by an independent tester) gives 3900 *)
+Example T15_eigh_rho_example :
+  let xs := [25; 36; 48]%Z in
+  let o := mkOpts (Some 2%Z) None None None None in
+  let W0 := map (fun x => inject_Z (sq x)) xs in
+  let mask := r_mask (truncate xs o) in
+  let out := eigh_rho_book W0 mask (12 # 13) in
+  (12 # 13) * (12 # 13) == sumQ (select mask (map (fun w => w / sumQ W0) W0)) /\
+  map Qred (eo_W out) = [1521; 2704] /\ Qred (eo_eps out) = 25 # 169 /\
+  sumQ (eo_W out) == 4225 /\ sumQ (eigh_rho_book_wrong W0 mask (12 # 13)) == 3900.
+Proof. vm_compute. repeat split; reflexivity. Qed.
+
+Example T15_err_example :
+  let l := [te_make (1 # 100); te_make (1 # 50); te_from_S [5 # 13] None] in
+  Qred (te_eps (te_sum l)) = Qred ((1 # 100) + (1 # 50) + (25 # 169)) /\
+  1 == (12 # 13) * (12 # 13) + sumQ (map qsq [5 # 13]) /\
+  Qred (te_eps (te_from_norm (12 # 13) 1)) = 25 # 169.
+Proof. vm_compute. repeat split; reflexivity. Qed.
+Close Scope Q_scope.
+
 Print Assumptions T15_threshold.
 Print Assumptions T15_keeps_one.
 Print Assumptions T15_chi_max.
@@ -83,3 +261,15 @@ Print Assumptions T15_trunc_cut.
 Print Assumptions T15_error_exact.
 Print Assumptions T15_unsorted_input.
 Print Assumptions T15_combine_constraints_gen.
+Print Assumptions T15_priority_general.
+Print Assumptions T15_priority_stage.
+Print Assumptions T15_priority_sets_meaning.
+Print Assumptions T15_svd_theta_bookkeeping.
+Print Assumptions T15_svd_theta_truncate.
+Print Assumptions T15_svd_theta_bookkeeping_sq.
+Print Assumptions T15_eigh_rho_bookkeeping.
+Print Assumptions T15_eigh_rho_truncate.
+Print Assumptions T15_eigh_rho_bookkeeping_z.
+Print Assumptions T15_err_add.
+Print Assumptions T15_err_from_norm.
+Print Assumptions T15_err_from_norm_1.
